@@ -250,6 +250,35 @@ def commands(chk, repo):
            "pointer, continues with the previous key", ok, gk,
            "a zero-filled key buffer instead of NULL starts *after* an "
            "existing all-zero key and skips entries")
+    # the key handed back is a buffer of its own (callers keep the keys
+    # they were given while they go on iterating)
+    cfg = CFG(gk)
+    rd = ReachingDefs(cfg)
+    aliased = []
+    nret = 0
+    for n in cfg.nodes:
+        st = n.stmt
+        if n.kind == "return" and isinstance(st, ast.Return) and \
+                st.value is not None:
+            nret += 1
+            if not isinstance(st.value, ast.Name):
+                if not (isinstance(st.value, ast.Call) and dotted(
+                        st.value.func) in ("bytearray", "bytes")):
+                    aliased.append(unparse(st.value))
+                continue
+            for df in rd.reaching(n, st.value.id):
+                v = df.value
+                if not (df.kind == "assign" and isinstance(v, ast.Call)
+                        and dotted(v.func) in ("bytearray", "bytes")):
+                    aliased.append(f"{st.value.id} = "
+                                   f"{unparse(v) if isinstance(v, ast.AST) else df.kind}")
+    need(nret >= 1, "get_next_key: no return of the key buffer found")
+    chk.ob("R09.4", B + "get_next_key", "every call returns a freshly "
+           "allocated key buffer", not aliased, gk,
+           ("returns " + "; ".join(aliased) + ": the caller's previous key "
+            "object is overwritten by the next step, so keys collected "
+            "during iteration (list(table), items()) all turn into the "
+            "last key") if aliased else "bytearray(...) on every path")
     it = repo.func(H + "TheDict.__iter__")
     ok = bool(find("get_next_key(self.fd, self.key.stack)", it)) and bool(
         find("get_next_key(self.fd, current)", it))
